@@ -121,7 +121,7 @@ def run_call(ctx, want_cancel):
 def run_C14(ctx):
     # HTTPClient.Do returns a response after the call's context was cancelled: that body is closed too
     from . import p_scalars
-    p_scalars.scalars(ctx, {"late_response"}, [])
+    p_scalars.scalars(ctx, {"late_response", "recvfail_live"}, [])
     return run_call(ctx, False)
 
 
